@@ -46,8 +46,12 @@ partial def loop (h : IO.FS.Stream) (out : IO.FS.Stream) (s : State) : IO Unit :
         out.putStrLn (observe before s')
         loop h out s'
       | none =>
-        out.putStrLn "bad-op"
-        loop h out s
+        if isWeakRaw opS then
+          out.putStrLn (observe s.log.length s)
+          loop h out s
+        else
+          out.putStrLn "bad-op"
+          loop h out s
     | some op =>
       let before := s.log.length
       let s' := execOp defaultFuel s op hint
